@@ -59,6 +59,8 @@ def main():
                 if r.get("caught"):
                     own = f"caught ({r.get('replay_kind')}: `{r.get('replay_signature')}`)"
                     fin = regression.get(f"{pid}/{os.path.basename(sd)}", {})
+                    if fin and not fin.get("caught"):
+                        own += "; **not reported in the final regression** (the obligation breaks on some seeds only; see 12.5)"
                     if r.get("replay_kind") != "oracle" and fin.get("kind") == "oracle":
                         own += f"; after strengthening with a concrete failing input (oracle: `{fin.get('signature')}`)"
                 elif r:
